@@ -2138,8 +2138,13 @@ double BW_MidiSequencer::Tick(double s, double granularity)
     }
 
     if(antiFreezeCounter <= 0)
+    {
+        if(m_currentPosition.wait < 0.0)
+            m_currentPosition.wait = 0.0; /* Give up the time still owed: a huge step can't be
+                                             caught up (1.0 added to -1e300 changes nothing) */
         m_currentPosition.wait += 1.0; /* Add extra 1 second when over 10000 events
                                           with zero delay are been detected */
+    }
 
     if(m_currentPosition.wait < 0.0) // Avoid negative delay value!
         return 0.0;
